@@ -13,7 +13,8 @@
 (*        an error/garbage/truncated reply; ro: read op subject to C07     *)
 (*   resolve(fault) sock(s,fault) opt(s,fault) wrap(s,w,fault)             *)
 (*   tmo(s,v,fault) connect(s,tmo,srv,fault)                               *)
-(*   send(s,c,tmo,ncmd,nrep,fault)  nrep = commands sent that expect reply *)
+(*   send(s,c,tmo,ncmd,nrep,nerr,fault)  nrep = commands sent that expect  *)
+(*        a reply; nerr = commands the server answers with an error line   *)
 (*   recv(s,c,tmo,n,own,fault)      own = calls whose replies were read    *)
 (*   close(s,fault)                                                        *)
 (*   ret(c,pend,used,shape) / raise(c,x,pend,used)  pend = open sockets    *)
@@ -31,7 +32,7 @@ IsFault(f) == f \notin {"none", "eintr", "again", "detached"}
 CMonInit(h) == [h |-> h, socks |-> <<>>, phase |-> "idle", now |-> 0,
                 c |-> 0, kind |-> "none", ro |-> FALSE, start |-> 0,
                 hard |-> FALSE, soft |-> FALSE, rfault |-> FALSE, intr |-> FALSE,
-                expect |-> 0]
+                expect |-> 0, sent |-> FALSE]
 
 Open(sk) == sk.st \in {"created", "connected"}
 OpenIds(m) == { i \in DOMAIN m.socks : Open(m.socks[i]) }
@@ -99,7 +100,9 @@ CMonClauses(m, ev) ==
             <<"C07-ignore-exc-read-never-raises",
                   (m.h.ignore_exc /\ m.ro /\ ev.e = "raise") => ev.x = "base">>,
             <<"C07-failed-read-returns-the-miss-result",
-                  (m.h.ignore_exc /\ m.ro /\ ev.e = "ret" /\ (m.hard \/ m.soft \/ m.rfault)) => ev.shape = "miss">> >>
+                  (m.h.ignore_exc /\ m.ro /\ ev.e = "ret" /\ (m.hard \/ m.soft \/ m.rfault)) => ev.shape = "miss">>,
+            <<"C07-read-that-reached-no-server-returns-the-miss-result",
+                  (m.h.ignore_exc /\ m.ro /\ ev.e = "ret" /\ ~m.sent) => ev.shape = "miss">> >>
     [] ev.e = "end" ->
          << <<"end-when-idle", m.phase = "idle">>,
             <<"C06-every-socket-closed-after-close", OpenIds(m) = {}>> >>
@@ -113,7 +116,7 @@ CMonEffect(m, ev) ==
   CASE ev.e = "tick" -> [m EXCEPT !.now = m.now + ev.d]
     [] ev.e = "call" -> [m EXCEPT !.phase = "busy", !.c = ev.c, !.kind = ev.kind, !.ro = ev.ro,
                                   !.start = m.now, !.hard = FALSE, !.soft = FALSE, !.intr = FALSE,
-                                  !.rfault = ev.rfault, !.expect = 0]
+                                  !.rfault = ev.rfault, !.expect = 0, !.sent = FALSE]
     [] ev.e = "resolve" -> [m EXCEPT !.hard = m.hard \/ IsFault(ev.fault)]
     [] ev.e = "sock" ->
          IF ev.fault = "none"
@@ -142,7 +145,9 @@ CMonEffect(m, ev) ==
          [m EXCEPT !.socks = Mark(m, ev.s, IsFault(ev.fault)),
                    !.hard = m.hard \/ IsFault(ev.fault),
                    !.intr = m.intr \/ ev.fault \in Interrupts,
-                   !.expect = m.expect + ev.nrep]
+                   !.expect = m.expect + ev.nrep,
+                   !.sent = m.sent \/ ev.fault = "none",
+                   !.rfault = m.rfault \/ ev.nerr > 0]
     [] ev.e = "recv" ->
          [m EXCEPT !.socks = Mark(m, ev.s, IsFault(ev.fault)),
                    !.hard = m.hard \/ IsFault(ev.fault),
